@@ -34,12 +34,14 @@ def WORKERS(tier):
 
 
 def gen_cases(tier, seed):
-    n = 20000 if tier == "thorough" else 600
-    per = 100 if tier == "thorough" else 15
+    n = 20000 if tier == "thorough" else 400
+    per = 100 if tier == "thorough" else 10
     cases = []
     for i in range(n // per):
         mode, keys, rais = MODES[i % len(MODES)]
-        cases.append({"mode": mode, "keys": list(keys), "raise": rais, "seed": seed * 50021 + i, "n": per})
+        # 'big': argument values large enough to be externalised by the client data store (threshold lowered to 8 in half of them)
+        cases.append({"mode": mode, "keys": list(keys), "raise": rais, "seed": seed * 50021 + i, "n": per, "big": (i // len(MODES)) % 2 == 1,
+                      "threshold": 8 if (i // len(MODES)) % 4 == 1 else 1024})
     return cases
 
 
@@ -95,8 +97,8 @@ def run_history(case, rng, apps, V, hooks, distinct):
     had_reuse = had_fresh_after_claim = False
     claimed_any = False
     nops = rng.randint(20, 60)
-    kvals = ["a", "b", 1, 2]
-    vvals = [0, 1, "x"]
+    kvals = ["a", "b", 1, 2, "L" * 12, "M" * 1100] if case.get("big") else ["a", "b", 1, 2]
+    vvals = [0, 1, "x", "v" * 14] if case.get("big") else [0, 1, "x"]
     for _ in range(nops):
         r = rng.random()
         if r < 0.62:
@@ -132,7 +134,7 @@ def run_history(case, rng, apps, V, hooks, distinct):
                     out = ("error", f"{type(e).__name__}: {e}"[:200])
                 after = (app.orchestrator.count_invocations(), app.broker.count_invocations())
                 outcomes[kind] = (out, before, after)
-                wit = {"mode": mode, "keys": keys, "raise": rais, "backend": kind, "trail": trail[-12:], "expected": list(exp), "got": list(out)}
+                wit = {"mode": mode, "keys": keys, "raise": rais, "backend": kind, "trail": [[t[0], {k_: (v_ if len(str(v_)) < 20 else f"{str(v_)[:3]}..len{len(str(v_))}") for k_, v_ in t[1].items()}, t[2]] if t[0] == "submit" else t for t in trail[-12:]], "expected": list(exp), "got": list(out)}
                 if out[0] == "error":
                     V.append({"sig": f"submit-error:{mode}", "what": f"{kind}: submission raised {out[1]}", "witness": wit})
                     continue
@@ -233,8 +235,9 @@ def run_case(case):
     hooks = Counter()
     V, distinct = [], []
     with TmpDir() as td:
-        apps = {"mem": make_app("mem", app_id=f"c07m{case['seed']}", cached_status_time=0.0),
-                "sqlite": make_app("sqlite", td.db(), app_id=f"c07s{case['seed']}", cached_status_time=0.0)}
+        thr = case.get("threshold", 1024)
+        apps = {"mem": make_app("mem", app_id=f"c07m{case['seed']}", cached_status_time=0.0, min_size_to_cache=thr),
+                "sqlite": make_app("sqlite", td.db(), app_id=f"c07s{case['seed']}", cached_status_time=0.0, min_size_to_cache=thr)}
         for _ in range(case["n"]):
             run_history(case, rng, apps, V, hooks, distinct)
     seen, out = Counter(), []
